@@ -8,6 +8,7 @@ import (
 	"sync"
 
 	lucene "github.com/grindlemire/go-lucene"
+	"github.com/grindlemire/go-lucene/pkg/driver"
 	"github.com/grindlemire/go-lucene/pkg/lucene/expr"
 )
 
@@ -27,10 +28,22 @@ func H_Purity() {
 	}
 	rtObserve("text", text)
 	df := rtParam("DF")
+	d := driver.NewPostgresDriver() // a driver of the caller's own (its construction copies a map: not an entry point)
 	rtEpoch()
+	// what a call without options returns before any call with a default field has been made
+	var f0, f1 *expr.Expression
+	var ferr0, ferr1 error
+	if df == 1 {
+		f0, ferr0 = lucene.Parse(text)
+	}
 	e, err := parseOpt(text, df)
 	e2, err2 := parseOpt(text, df)
 	rtAssert("parse-deterministic", errText(err) == errText(err2))
+	// ... and after: the option of one call is not remembered by the next
+	if df == 1 {
+		f1, ferr1 = lucene.Parse(text)
+	}
+	rtAssert("options-do-not-leak", errText(ferr0) == errText(ferr1) && (f0 == nil) == (f1 == nil) && (f0 == nil || fmt.Sprintf("%#v", f0) == fmt.Sprintf("%#v", f1)))
 	if err != nil || e == nil || e2 == nil {
 		rtReach("rejected")
 		return
@@ -65,6 +78,21 @@ func H_Purity() {
 	if df == 0 {
 		rtAssert("topostgres-deterministic", errText(terr1) == errText(terr2) && t1 == t2 && (rerr1 == nil) == (terr1 == nil) && t1 == sql1)
 	}
+	if df == 1 {
+		rtReach("end")
+		return
+	}
+	// customising a driver of one's own changes nothing for anybody else
+	prev, had := d.RenderFNs[expr.Equals]
+	d.RenderFNs[expr.Equals] = func(left, right string) (string, error) { return "x", nil }
+	t3, terr3 := lucene.ToPostgres(text)
+	sql3, rerr3 := pg.Render(e)
+	if had {
+		d.RenderFNs[expr.Equals] = prev
+	} else {
+		delete(d.RenderFNs, expr.Equals)
+	}
+	rtAssert("private-driver-is-private", errText(terr3) == errText(terr1) && t3 == t1 && errText(rerr3) == errText(rerr1) && sql3 == sql1)
 	rtReach("end")
 }
 
@@ -131,6 +159,7 @@ func raceProbe(text string) {
 					_, _ = pg.Render(shared)
 					_, _, _ = pg.RenderParam(shared)
 					_, _ = json.Marshal(shared)
+					_, _ = driver.NewPostgresDriver().Render(shared) // cmd/main.go builds a driver per call
 				}
 			}
 		}(i)
